@@ -1,7 +1,7 @@
 (* Correspondence for C06 / C07 / C08 / C13: the exact law of a selector configuration on a
    population, as (class of outcome, probability) pairs for the statistical comparison. *)
 From Coq Require Import List ZArith QArith Bool Arith.
-From UEC Require Import Base.Wire Base.Dist Ec.Select.
+From UEC Require Import Base.Wire Base.Dist Ec.Select Ec.BinomN.
 Import ListNotations.
 Local Open Scope Z_scope.
 
@@ -57,6 +57,43 @@ Definition code (coarse : bool) (pop : population) (o : outcome) : Z :=
 Definition law (pol : bool) (pop : population) (s : sel) : list (Z * Q) :=
   tally Z.eqb (map (fun op => (code (order_based s) pop (fst op), snd op)) (select pol pop s)).
 
+(* populations too large to enumerate their k-subsets: a bare tournament over individuals with pairwise distinct
+   totals is judged by the RANK LAW (Props/C07: C07_rank_law) - the individual that is r-th from the bottom wins
+   with probability C(r-1, k-1) / C(n, k) - evaluated with the multiplicative binomial (BinomN.binomN_spec) *)
+Fixpoint zdistinct (l : list Z) : bool :=
+  match l with [] => true | x :: r => negb (existsb (Z.eqb x) r) && zdistinct r end.
+Definition rank_law (pol : bool) (pop : population) (k : nat) : list (Z * Q) :=
+  let n := length pop in
+  let keys := map (ikey pol pop) (seq 0 n) in
+  let den := Z.to_pos (Z.of_N (binomN (N.of_nat n) k)) in
+  flat_map (fun i => let r := length (filter (fun x => x <=? nth i keys 0) keys) in
+                     let num := Z.of_N (binomN (N.of_nat (r - 1)) (k - 1)) in
+                     if num =? 0 then [] else [(Z.of_nat i, Qred (Qmake num den))]) (seq 0 n).
+Definition big_tournament (pol : bool) (pop : population) (s : sel) : option nat :=
+  match s with
+  | STournament k => if (12 <? length pop)%nat && (1 <=? k)%nat && (k <=? length pop)%nat
+                        && zdistinct (map (ikey pol pop) (seq 0 (length pop))) then Some k else None
+  | _ => None
+  end.
+
+(* lexicase with more cases than can be enumerated (> 8: 9! orders and up): when every configured case has results for
+   everybody and exactly ONE best individual, the first case of the order decides and individual i wins with probability
+   #{cases whose unique best is i} / #cases (Props/C08: C08_decisive_cases) *)
+Definition decisive_law (pol : bool) (pop : population) (n : nat) : option (list (Z * Q)) :=
+  let all := seq 0 (length pop) in
+  if (2 <=? length pop)%nat && (1 <=? n)%nat then
+    let ws := map (fun c => if missing pol pop c all then None
+                            else match filter_case pol pop c all with [w] => Some w | _ => None end) (seq 0 n) in
+    if forallb (fun o => match o with Some _ => true | None => false end) ws
+    then Some (tally Z.eqb (flat_map (fun o => match o with Some w => [(Z.of_nat w, Qmake 1 (Pos.of_nat n))] | None => [] end) ws))
+    else None
+  else None.
+Definition big_lexicase (pol : bool) (pop : population) (s : sel) : option (list (Z * Q)) :=
+  match s with
+  | SLexicase n => if (8 <? n)%nat then decisive_law pol pop n else None
+  | _ => None
+  end.
+
 Definition enc_law (l : list (Z * Q)) : list Z :=
   flat_map (fun cq => [fst cq; Qnum (snd cq); Z.pos (Qden (snd cq))]) l.
 
@@ -111,7 +148,12 @@ Definition judge (t : tree) : option (list Z) :=
     | None =>
       match o with
       | L [L [A (-10); _; _]] => Some [2; 6]
-      | _ => Some (4 :: Z.of_nat (length pop) :: map (class_of (order_based s) pop) (seq 0 (length pop)) ++ enc_law (law pol pop s))
+      | _ => Some (4 :: Z.of_nat (length pop) :: map (class_of (order_based s) pop) (seq 0 (length pop))
+                     ++ enc_law (match big_tournament pol pop s, big_lexicase pol pop s with
+                                 | Some k, _ => rank_law pol pop k
+                                 | None, Some l => l
+                                 | None, None => law pol pop s
+                                 end))
       end
     end end
   | _ => None
